@@ -527,6 +527,35 @@ fn state_handles_clone_from(out: &mut StepOut) {
     drop(rx_a);
 }
 
+/// Payload without drop glue (`u32`): "dropping the last mpmc receiver discards buffered values
+/// immediately" holds for it as for any other payload - a receive future that outlives the handle
+/// gets None, and a sender sees a closed channel.
+fn plain_payload_last_receiver(out: &mut StepOut) {
+    use futures_intrusive::channel::shared::generic_channel;
+    let (tx, rx) = generic_channel::<PL, u32, FixedHeapBuf<u32>>(3);
+    let wr = harness::waker(W_R);
+    let mut f = Box::pin(rx.receive());
+    if !matches!(lib(|| tx.try_send(7)), Ok(Ok(()))) || !matches!(lib(|| tx.try_send(8)), Ok(Ok(()))) {
+        out.v("C09", "script", "try_send into an empty channel of capacity 3 failed".to_string());
+        return;
+    }
+    if let Err(p) = lib(|| drop(rx)) {
+        out.v("C01", "panic", format!("dropping the last receiver panicked: {}", p));
+        return;
+    }
+    match lib(|| f.as_mut().poll(&mut Context::from_waker(&wr))) {
+        Ok(Poll::Ready(None)) => {}
+        other => {
+            out.v("C11", "last-receiver-keeps-values", format!("the last receiver handle was dropped with two u32 values buffered; a receive future that outlived it yields {:?} instead of None", other.map(|p| p.map(|o| o))));
+            return;
+        }
+    }
+    if !matches!(lib(|| tx.try_send(9)), Ok(Err(TrySendError::Closed(9)))) {
+        out.v("C11", "last-receiver-did-not-close", "try_send succeeds although the last receiver handle was dropped".to_string());
+    }
+    drop(f);
+}
+
 impl System for HandleScript {
     type Op = HandleOp;
     fn new(_cfg: &Cfg) -> Self {
@@ -536,7 +565,7 @@ impl System for HandleScript {
         if self.ran.is_some() {
             vec![]
         } else {
-            (0..3).map(HandleOp::Run).collect()
+            (0..4).map(HandleOp::Run).collect()
         }
     }
     fn apply(&mut self, op: HandleOp, out: &mut StepOut) {
@@ -546,7 +575,8 @@ impl System for HandleScript {
         match i {
             0 => mpmc_sender_clone_from(out),
             1 => mpmc_receiver_clone_from(out),
-            _ => state_handles_clone_from(out),
+            2 => state_handles_clone_from(out),
+            _ => plain_payload_last_receiver(out),
         }
         let _ = harness::take_alloc_counts();
         if out.viol.is_empty() {
